@@ -191,3 +191,60 @@ reg("C05", level="other", engine="E-GRAM+E-TAB+E-FLOW", design_ref="DESIGN.md §
     level_note="Trusted: rustc MIR, interpreter/models, the M/F denotations of eleven winnow combinators (engine/peg.py), "
                "the reference languages. Numeric bounds are the guard rows, not part of the language check.",
     exhaustive=True, assumptions=["winnow 0.6 combinator semantics as transcribed in engine/peg.py"])
+
+reg("C12", level="other", engine="E-GRAM+E-TAB+E-FLOW", design_ref="DESIGN.md §5 C12",
+    technique="writer/reader agreement: Display templates extracted by abstract interpretation of MIR, the reader's PEG automaton "
+              "extracted from the winnow grammar; regular inclusion of the writer's image and section-boundary checks on marked automata",
+    explanation="Partial claim. Decided: Display for Version prints {major}.{minor}.{patch}[-pre(.pre)*][+build(.build)*] with the "
+                "fields of that name, Display for Identifier prints the payload only; every string of the writer's regular image "
+                "is accepted by the reader's automaton; on such strings version_core / pre_release / build stop exactly at the "
+                "writer's section boundaries and the identifier class contains none of the inserted separators; digits re-parse "
+                "as Numeric, other text as AlphaNumeric; the printed form is never longer than the accepted input (length rule); "
+                "serde delegates to Display / parse. NOT decided: equality of arbitrary round trips as a runtime fact — it is "
+                "argued from this agreement.",
+    level_text="Other (partial): exact and unbounded for the automata; the step from writer/reader agreement to value equality is an "
+               "argument, not a check.",
+    level_note="Trusted: rustc MIR, interpreter/models, PEG denotations (engine/peg.py), std's u64 Display/FromStr round trip.",
+    exhaustive=True, assumptions=["u64 to_string / str::parse round trip (std)", "C04 classification", "C05 language"])
+
+reg("C13", level="other", engine="E-TAB+E-GRAM+E-FLOW", design_ref="DESIGN.md §5 C13",
+    technique="composition of tables: Display templates of BoundSet/Range extracted by abstract interpretation, read back "
+              "symbolically through the reader's operator table, desugaring table and intersection table; numeric-range rule "
+              "over the desugaring table's arithmetic terms",
+    explanation="Partial claim. Decided: the template Display prints for each of the interval shapes; each printed comparator is "
+                "read by the operator table as the same operator (ordered-choice first match), by the desugaring closures (full "
+                "version with prerelease) as a bound of the same kind on the same version, and two comparators fold by "
+                "intersection to the printed pair (C07); alternatives are joined by `||` which logical_or reads; the numeric "
+                "range the writer can print is within what number() accepts; serde delegates to Display/parse. NOT decided: "
+                "text-level facts (that a printed Version inside a range is read by partial_version as the same version — argued "
+                "from C12) and stability after one round as a runtime fact.",
+    level_text="Other (partial): exhaustive over the finite shape tables.",
+    level_note="Trusted: rustc MIR, interpreter/models; C07 for the fold; C12 for version text.",
+    exhaustive=True, assumptions=["C07", "C12", "C01 operator table"])
+
+reg("C15", level="other", engine="E-TAB+E-SET", design_ref="DESIGN.md §5 C15",
+    technique="derived from the exact single-operation tables (abstract interpretation over cuts and over a free Boolean "
+              "algebra) by induction on the expression tree; depth-2 identity rows evaluated directly as a cross-check",
+    explanation="If every operation is exactly its set operation on the cut semantics and returns operands that satisfy the "
+                "input invariants again (T-NEW, T-ORD, T-INT, T-DIF, E-SET tables, re-run here), then by induction every "
+                "composition denotes the corresponding Boolean-algebra term and all listed identities hold. In addition the "
+                "identities (commutativity, associativity, idempotence, A\\A, (A\\B)&B, partition, A\\(A\\B)) are evaluated "
+                "directly on depth-2 compositions over up to 3 generators in every world. Printable/re-parsable: C13.",
+    level_text="Other (derived): the induction is a hand argument over machine-checked base tables; the direct rows are "
+               "bounded by the number of alternatives.",
+    level_note="Trusted: as C07/C08; the induction on expression trees.",
+    exhaustive=True, assumptions=["C07", "C08", "C13"])
+
+reg("C11", level="other", engine="E-TAB", design_ref="DESIGN.md §5 C11 (T-MINV)",
+    technique="abstract interpretation of min_version (MIR, with satisfies / Version::cmp / Bound::cmp interpreted as callees) over "
+              "structured version tokens in difference-bound worlds; the property's own statement evaluated with a reference model "
+              "of satisfaction over a bounded probe universe",
+    explanation="Partial claim. Range::min_version is interpreted on every range of the enumerated family (one alternative with "
+                "bounds from 18 small versions x all bound kinds; two alternatives over 6 versions) with numeric fields as integer "
+                "tokens compared only field-wise (incremented tokens allowed: the small integers realise every ordering of x, x+1) "
+                "and checked against the statement: the answer satisfies the range (reference: cuts + prerelease gate), no probe "
+                "version below it satisfies it, None only when no probe satisfies. A reported violation is genuine; absence of one "
+                "covers the enumerated ranges and probes only (no finite abstraction of 'least version' is claimed).",
+    level_text="Other (partial, bounded): exhaustive over the stated family; not a proof for all ranges.",
+    level_note="Trusted: rustc MIR, interpreter/models, the reference satisfaction model (same cut + gate semantics as C03/C07).",
+    exhaustive=True, assumptions=["bounded family of ranges and probe versions"])
